@@ -320,7 +320,7 @@ Fixpoint spec_value (fuel : nat) (s : bytes) {struct fuel} : sres (doc * bytes) 
         | [] => SInvalid
         end
       else if c =? cQUOTE then
-        match spec_string (S (length r)) r [] with
+        match spec_string f r [] with
         | SOk (str, r') => SOk (DStr str, r')
         | SInvalid => SInvalid | SOut => SOut | SFuel => SFuel
         end
@@ -363,7 +363,7 @@ with spec_members (fuel : nat) (s : bytes) (acc : list (bytes * doc)) {struct fu
     match skip_ws s with
     | b :: r =>
       if b2n b =? cQUOTE then
-        match spec_string (S (length r)) r [] with
+        match spec_string f r [] with
         | SOk (key, r1) =>
           match skip_ws r1 with
           | b1 :: r2 =>
